@@ -4,6 +4,7 @@ import (
 	"fmt"
 	"go/constant"
 	"go/types"
+	"reflect"
 	"sort"
 	"strings"
 )
@@ -17,15 +18,16 @@ type SVal struct {
 }
 
 type Env struct {
-	noLabels bool // label-dependent builtins are not available (contract applied at a call site)
-	s        *State
-	vars     map[string]SVal
-	heap     map[string]Term
-	ghost    map[string]Term
-	alloc    Term
-	old      *Env
-	pkg      *types.Package
-	depth    int
+	quantified bool // inside a quantifier: bound variables must not leak into side facts
+	noLabels   bool // label-dependent builtins are not available (contract applied at a call site)
+	s          *State
+	vars       map[string]SVal
+	heap       map[string]Term
+	ghost      map[string]Term
+	alloc      Term
+	old        *Env
+	pkg        *types.Package
+	depth      int
 }
 
 type specErr struct{ msg string }
@@ -233,6 +235,7 @@ func (e *Env) eval(x SExpr) SVal {
 		return ne.eval(n.Body)
 	case *SQuant:
 		ne := e.child()
+		ne.quantified = true
 		var decls []string
 		for _, vd := range n.Vars {
 			gt, sort := w.resolveType(e.pkg, vd.Type)
@@ -552,7 +555,16 @@ func (e *Env) locVal(p *PtrVal, t types.Type) SVal {
 	if e.s.w.isFlatStruct(t) {
 		return SVal{loc: p, gt: t}
 	}
-	return SVal{t: e.s.loadFrom(e.heap, p), gt: t}
+	v := e.s.loadFrom(e.heap, p)
+	if len(e.s.heap) > 0 && sameMap(e.heap, e.s.heap) && !e.quantified {
+		// reading the current heap: the entry heap is closed under reachability
+		e.s.entryBound(p, v, t)
+	}
+	return SVal{t: v, gt: t}
+}
+
+func sameMap(a, b map[string]Term) bool {
+	return reflect.ValueOf(a).Pointer() == reflect.ValueOf(b).Pointer()
 }
 
 func (e *Env) index(xv SVal, ix SExpr) SVal {
